@@ -1,6 +1,7 @@
 import ParryModel.Field
 import ParryModel.C11.Lemmas
 import ParryModel.C11.Theorems2
+import ParryModel.C11.Theorems3
 /-!
 # C11 property theorems: TriMesh derived data always match the buffers
 
